@@ -46,10 +46,17 @@ WHAT THE MODEL CANNOT EXPRESS (trusted, not proved):
   stack), and in this model they are immutable values, so concurrent use is the same function
   applied to the same arguments; that `unsafe impl Send/Sync` for the raw-pointer iterator is
   sound is a statement about Rust's type system, outside the model.
-  -- TODO(memmem): once the substring searcher proofs land, restate here that `Searcher.find`
-  -- takes the searcher by shared reference and returns a value depending only on its arguments.
+  What IS proved about them (`shared_finder`, `shared_finder_rev`, `find_keeps_finder`): a
+  `find` / `rfind` step returns the very same finder value, and in EVERY global order of
+  `find` calls made by any number of threads on one shared finder, each thread observes exactly
+  what it observes running its own calls alone - the leftmost / rightmost occurrence in each
+  of its haystacks.  A call is one atomic step of that order; that is justified by the absence
+  of interior mutability (checked on every run by the extractor's structural fact "no
+  Cell/RefCell/Atomic/static mut in the searcher types", and observed by the fresh-process
+  barrier runs that race real threads on a shared `Finder`), not by the theorem.
 -/
 import MemchrModel.Proofs.Concurrency
+import MemchrModel.Proofs.SharedFinder
 
 namespace Memchr.Props.C15
 
@@ -138,6 +145,69 @@ theorem race_value :
     (1001 : Nat) ≤ 1001 ∧ 1005 ≤ 1001 + (#[0x62, 0x61, 0x62, 0x61] : Array UInt8).size := by
   decide
 
+/-! ### one substring finder shared by several threads -/
+
+open Memchr.Memmem Memchr.SharedFinder in
+/-- **A shared `Finder`.** `s : Sched` is a global order of `find` calls, each tagged with the
+thread that made it (`(thread, haystack)`); `opsOf s` is what the one shared finder sees,
+`alone t s` are thread `t`'s calls in program order, `project t s outs` the outputs at `t`'s
+calls.  For every configuration, every `FinderBuilder` finder (any prefilter setting, any
+ranker), every valid needle and EVERY such order on valid haystacks: the run returns normally,
+every call observes the leftmost occurrence of the needle in ITS haystack, and every thread
+observes exactly what a finder for the same needle yields when that thread's calls run alone
+(same builder, same initial heap and counter).  The number of threads, the calls per thread
+and the interleaving are all universally quantified. -/
+theorem shared_finder (cfg : Api.Cfg) (b : FinderBuilder) (rank : UInt8 → UInt8)
+    (needle : Slice) (hn : needle.Valid) (s : Sched) (hs : ∀ p ∈ s, p.2.Valid)
+    (h : Heap) (c : Ctr) :
+    ∃ outs f' h' c',
+      (b.buildForwardWithRanker cfg rank needle >>= fun f => Finder.run cfg (opsOf s) f h) c =
+        .ok (outs, f', h') c' ∧
+      outs = s.map (fun p => Memmem.Out.idx (Spec.leftmost p.2.toArray needle.toArray)) ∧
+      ∀ t, ∃ f1 h1 c1,
+        (b.buildForwardWithRanker cfg rank needle >>= fun f =>
+          Finder.run cfg (opsOf (alone t s)) f h) c = .ok (project t s outs, f1, h1) c1 :=
+  SharedFinder.shared_finder cfg b rank needle hn s hs h c
+
+open Memchr.Memmem Memchr.SharedFinder in
+/-- **A shared `FinderRev`**: the same with `rfind` and the rightmost occurrence. -/
+theorem shared_finder_rev (cfg : Api.Cfg) (needle : Slice) (hn : needle.Valid) (s : Sched)
+    (hs : ∀ p ∈ s, p.2.Valid) (h : Heap) (c : Ctr) :
+    ∃ outs f' h' c',
+      (FinderRev.new needle >>= fun f => FinderRev.run cfg (opsOf s) f h) c =
+        .ok (outs, f', h') c' ∧
+      outs = s.map (fun p => Memmem.Out.idx (Spec.rightmost p.2.toArray needle.toArray)) ∧
+      ∀ t, ∃ f1 h1 c1,
+        (FinderRev.new needle >>= fun f => FinderRev.run cfg (opsOf (alone t s)) f h) c =
+          .ok (project t s outs, f1, h1) c1 :=
+  SharedFinder.shared_finder_rev cfg needle hn s hs h c
+
+open Memchr.Memmem in
+/-- `find(&self)` cannot change what another thread sees: whenever the model's `find` step
+returns, the finder and the heap it returns are the ones it was given. -/
+theorem find_keeps_finder (cfg : Api.Cfg) (hay : Slice) (f : Finder) (h : Heap) (c : Ctr)
+    (o : Option Memmem.Out) (f' : Finder) (h' : Heap) (c' : Ctr)
+    (hstep : f.step cfg (.find hay) h c = .ok (o, f', h') c') : f' = f ∧ h' = h :=
+  SharedFinder.find_keeps_finder cfg hay f h c o f' h' c' hstep
+
+open Memchr.Memmem Memchr.SharedFinder in
+/-- the hypotheses of `shared_finder` are satisfiable, and the bookkeeping is not trivial: three
+threads, five calls on two different valid haystacks, interleaved; thread 1 made the calls at
+positions 1 and 3, thread 7 none -/
+example :
+    let n : Slice := ⟨⟨1, 1048577, #[0, 97, 98, 0]⟩, 1, 2⟩
+    let a : Slice := ⟨⟨0, 4099, #[120, 97, 98, 97, 98, 120]⟩, 1, 4⟩
+    let b : Slice := ⟨⟨2, 8192, #[97, 98]⟩, 0, 2⟩
+    let s : Sched := [(0, a), (1, b), (2, a), (1, a), (0, b)]
+    n.Valid ∧ (∀ p ∈ s, p.2.Valid) ∧
+    (alone 1 s).map (·.1) = [1, 1] ∧ (alone 7 s).length = 0 ∧
+    project 1 s ([.idx (some 0), .idx (some 10), .idx none, .idx (some 30), .idx (some 40)] : List Memmem.Out) =
+      [.idx (some 10), .idx (some 30)] := by
+  refine ⟨by simp [Slice.Valid], ?_, by decide, by decide, by decide⟩
+  intro p hp
+  simp at hp
+  rcases hp with rfl | rfl | rfl | rfl | rfl <;> simp [Slice.Valid]
+
 end Memchr.Props.C15
 
 #print axioms Memchr.Props.C15.any_schedule
@@ -147,3 +217,6 @@ end Memchr.Props.C15
 #print axioms Memchr.Props.C15.count_any_schedule
 #print axioms Memchr.Props.C15.race
 #print axioms Memchr.Props.C15.race_value
+#print axioms Memchr.Props.C15.shared_finder
+#print axioms Memchr.Props.C15.shared_finder_rev
+#print axioms Memchr.Props.C15.find_keeps_finder
